@@ -264,6 +264,7 @@ impl<'a> RleDecoder<'a> {
 
 // ---------------------------------------------------------------------------------------------
 // DecoderV2: the usize var-int / length-prefixed buffer readers over (&[u8], &mut usize), and the delete-set clock codec
+// (`DecoderV2::new` / `StringDecoder::new`: v2new.rs)
 // ---------------------------------------------------------------------------------------------
 // the REAL struct (all twelve fields, unchanged)
 /*@extract yrs/src/updates/decoder.rs | - | struct DecoderV2 @*/
@@ -369,6 +370,9 @@ pub proof fn lemma_dec_enc_usize(v: usize, tail: Seq<u8>)
 }
 
 /// what `DecoderV2::read_buf` computes: (payload, bytes consumed)
+/// (opaque = not unfolded automatically, `reveal(dec_buf_v2)` where the definition is needed: `DecoderV2::new` calls read_buf nine
+/// times and reasons about the results as values only)
+#[verifier::opaque]
 pub open spec fn dec_buf_v2(s: Seq<u8>) -> Option<(Seq<u8>, nat)> {
     match dec_usize(s) {
         Some((n, k)) => if k + n <= s.len() { Some((s.subrange(k as int, k + n as int), k + n as nat)) } else { None },
@@ -383,6 +387,7 @@ pub enum SecErr {
     Short(usize),
 }
 
+#[verifier::opaque]
 pub open spec fn buf_v2_err(s: Seq<u8>) -> SecErr {
     match dec_usize(s) {
         None => SecErr::VarInt,
@@ -405,6 +410,7 @@ pub proof fn lemma_dec_enc_buf_v2(b: Seq<u8>, tail: Seq<u8>)
     ensures
         dec_buf_v2(enc_buf(b) + tail) == Some((b, enc_buf(b).len())),
 {
+    reveal(dec_buf_v2);
     let e = enc_uint(b.len());
     assert(enc_buf(b) + tail =~= e + (b + tail));
     lemma_dec_enc_usize(b.len() as usize, b + tail);
@@ -470,6 +476,10 @@ impl<'a> DecoderV2<'a> {
             },
     @start
         let ghost i0 = *idx as int;
+        proof {
+            reveal(dec_buf_v2);
+            reveal(buf_v2_err);
+        }
     @before 1 `stmt:call Ok`
         proof {
             let t = tail_from(buf@, i0);
